@@ -167,7 +167,7 @@ def run(ctx):
         directed = [s for s in seeds if '"name":"dir#' in s]
         gen = [s for s in seeds if '"name":"gen' in s]
         frag = [s for s in seeds if '"name":"gen' not in s and '"name":"dir#' not in s]
-        used = rnd.sample(gen, min(24, len(gen))) + rnd.sample(frag, min(16, len(frag)))
+        used = rnd.sample(gen, min(12, len(gen))) + rnd.sample(frag, min(8, len(frag)))   # the directed seeds are always in
         used = directed + ([s for s in used if len(json.loads(s)["b"]) <= 64] or used[:4])
     seeds_path = os.path.join(ctx.work, "seeds.ndjson")
     with open(seeds_path, "w") as f:
